@@ -231,9 +231,24 @@ package identity
 //@   trusted
 //@   modifies repository.mutSeq
 //@   ensures repository.mutSeq >= old(repository.mutSeq)
+// An identity needs a commit exactly when one of its versions has not been written yet.
 //@ func (*Identity).NeedCommit
-//@   trusted
+//@   props C06 C09
+//@   requires i != nil && (forall k int :: { i.versions[k] } 0 <= k && k < len(i.versions) ==> i.versions[k] != nil)
 //@   modifies nothing
+//@   ensures [some-version-unwritten] result == (exists k int :: 0 <= k && k < len(i.versions) && i.versions[k].commitHash == "")
+//@   loop 1
+//@     invariant forall k int :: { i.versions[k] } 0 <= k && k <= rangeindex ==> i.versions[k].commitHash != ""
+// Committing when needed (C06): with every version written nothing is written and no ref moves; otherwise the outcome is
+// Commit's - a failure touches no ref, a success has moved one.
+//@ func (*Identity).CommitAsNeeded
+//@   props C06 C09
+//@   requires i != nil && repo != nil
+//@   requires [versions-set] forall k int :: { i.versions[k] } 0 <= k && k < len(i.versions) ==> i.versions[k] != nil
+//@   let needs = old(exists k int :: 0 <= k && k < len(i.versions) && i.versions[k].commitHash == "")
+//@   ensures [nothing-unwritten-nothing-written] !needs ==> result == nil && repository.refs == old(repository.refs) && repository.mutSeq == old(repository.mutSeq)
+//@   ensures [failure-touches-no-ref] result != nil ==> repository.refs == old(repository.refs)
+//@   ensures [unwritten-versions-are-committed] needs && result == nil ==> repository.refMutSeq == repository.mutSeq && repository.mutSeq > old(repository.mutSeq)
 //@ func (*Identity).Commit
 //@   props C06 C15 C09
 // (C09) what is written passed the validation of the whole identity first: from each version to the next every
@@ -392,3 +407,26 @@ package identity
 //@   props C07
 //@   requires v != nil
 //@   check [only-the-expected-format-is-read] result == nil ==> aux.FormatVersion == formatVersion
+
+// The key a commit is signed with (C08): a key of the identity's latest version whose private part was found in the
+// keyring - a key without one is passed over, any other failure of the keyring is reported, and no key means no
+// signature (nil, nil), never another identity's key.
+// (loadPrivate reads the armored private key from the keyring and decodes it with the openpgp library: trusted)
+//@ func (*Key).loadPrivate
+//@   trusted
+//@   modifies k.private
+//@   ensures result == nil ==> k.private != nil
+//@ func (*Key).ensurePrivateKey
+//@   props C08
+//@   requires k != nil
+//@   modifies k.private
+//@   opt trusted_frame
+//@   ensures [has-private-part-on-success] result == nil ==> k.private != nil
+//@ func (*Identity).SigningKey
+//@   props C08
+//@   requires [has-version] i != nil && len(i.versions) > 0
+//@   requires [keys-set] forall j int :: { i.versions[len(i.versions) - 1].keys[j] } 0 <= j && j < len(i.versions[len(i.versions) - 1].keys) ==> i.versions[len(i.versions) - 1].keys[j] != nil
+//@   ensures [an-own-key-with-its-private-part] result != nil ==> result1 == nil && result.private != nil && (exists j int :: 0 <= j && j < len(i.versions[len(i.versions) - 1].keys) && i.versions[len(i.versions) - 1].keys[j] == result)
+//@   ensures [a-keyring-failure-is-reported] result1 != nil ==> result == nil && result1 != errNoPrivateKey
+//@   loop 1
+//@     invariant i.versions == old(i.versions) && keys == i.versions[len(i.versions) - 1].keys
